@@ -43,6 +43,19 @@ def main(tier, seed):
             # every other document refers to types of two included namespaces (same-named records, a pointer record)
             g.foreign = i % 2 == 1
             ns = g.namespace(rng.choice([3, 6, 10, 16]))
+            if g.foreign:
+                # every type of the included namespaces in parameter, return and element position, whatever the dice said
+                xt = [('X', 'Item'), ('Y', 'Item'), ('X', 'Other'), ('X', 'Handle'), ('Y', 'Handle')]
+
+                def par(j, t):
+                    return dict(name='p%d' % j, dir='in', transfer='none', nullable=False, optional=False, caller_allocates=False,
+                                skip=False, scope=None, closure=None, destroy=None, type=t, attrs={})
+                for j, t in enumerate(xt):
+                    ns['entries'].append(dict(kind='function', name='xuse%d' % j, cid='t_xuse%d' % j, deprecated=False, attrs={},
+                                              params=[par(0, ('xiface',) + t), par(1, ('glist', ('xiface',) + t)),
+                                                      par(2, ('array', ('xiface',) + t, dict(zero=True)))],
+                                              ret=dict(type=('xiface',) + xt[(j + 1) % len(xt)], transfer='none', nullable=False, skip=False, attrs={}),
+                                              throws=False))
             gir = os.path.join(tmp, 'T-1.0.gir')
             tl = os.path.join(tmp, 'T-1.0.typelib')
             xml = girgen.to_gir(ns, includes=[('X', '1.0'), ('Y', '1.0')] if g.foreign else ())
